@@ -303,6 +303,7 @@ def run(m, tier):
     r9 = regex_rules.anchor_rule(m, "C11.R9")
     r9.title = "the directive-prefix patterns (and every other pattern) anchor all alternatives alike: a comment that merely mentions a sentinel is not a directive (shared with C08.R7)"
     results.append(r9)
+    results.append(rr.rule_inline_table(m, "C11.R10"))
     expl = ("Decides structural clauses of C11: per call site of the block engine the class list tried at every position contains the "
             "comment, include, preprocessor (and, exactly under process_directives, directive) classes; comments are collected before "
             "each opening statement and around every program unit, with both collectors in every round; every reader item and every "
